@@ -38,6 +38,11 @@ func (t *Dense) T(axes ...int) (err error) {
 
 		// cool beans. No funny reversals. We'd have to actually do transpose then
 		t.Transpose()
+
+		// the data has moved and the strides with it: the transform has to be recomputed
+		if transform, axes, err = t.AP.T(axes...); err != nil {
+			return handleNoOp(err)
+		}
 	}
 
 	// swap out the old and the new
